@@ -97,12 +97,27 @@ def _projection_field(body, clo_op):
         if fr is None or lib.tail(mir.fn_name(fr), 1) not in ("as_slice", "deref", "as_ref", "iter", "borrow"):
             return None
     names = set()
+    # the parameter and its whole-value copies (a helper inlined into the closure binds its own parameter to it)
+    alias = {2}
+    grew = True
+    while grew:
+        grew = False
+        for b, i, st in cb.iter_stmts():
+            if st["k"] == "assign" and not st["place"]["p"] and st["place"]["l"] not in alias and "use" in st["rv"]:
+                sp = op_place(st["rv"]["use"])
+                if sp is not None and not sp["p"] and sp["l"] in alias:
+                    alias.add(st["place"]["l"])
+                    grew = True
+            elif st["k"] == "assign" and not st["place"]["p"] and st["place"]["l"] not in alias and "ref" in st["rv"] and not st["rv"].get("mut") \
+                    and st["rv"]["ref"]["p"] == ["deref"] and st["rv"]["ref"]["l"] in alias:
+                alias.add(st["place"]["l"])        # `&*r`: a reborrow of the parameter
+                grew = True
     for b, i, st in cb.iter_stmts():
         if st["k"] != "assign":
             continue
         rv = st["rv"]
         pl = rv.get("ref") or (op_place(rv["use"]) if "use" in rv else None)
-        if pl is None or pl["l"] != 2:
+        if pl is None or pl["l"] not in alias:
             continue
         for e in pl["p"]:
             if isinstance(e, dict) and "f" in e and e.get("adt") and not e["adt"].startswith(("core::", "alloc::", "std::", "bevy_", "hashbrown::", "smallvec::")):
@@ -256,9 +271,52 @@ def _place_source(body, p, depth, env):
             return ("table", base[1], named[-1][1], base[3])
         return base
     if named:
+        via = _through_local_record(body, p, depth, env)
+        if via is not None:
+            return via
         adt, name = named[-1]
         return ("field", adt, name)
     return None
+
+
+def _through_local_record(body, p, depth, env):
+    """`rec.f` / `(*r).f` where `rec` is a private record built by an aggregate in this very function (and `r` a shared
+    reference to it): what the field was built from"""
+    if depth > 80:
+        return None
+    l, proj = p["l"], list(p["p"])
+    for _ in range(6):
+        if proj and proj[0] == "deref":
+            ds = [d for d in body.defs.get(l, []) if d[0] in ("stmt", "call")]
+            if len({repr(d[3]) for d in ds if d[0] == "stmt"}) != 1 or any(d[0] == "call" for d in ds):
+                return None
+            rv = ds[0][3]
+            if "ref" in rv and not rv.get("mut"):
+                l, proj = rv["ref"]["l"], list(rv["ref"]["p"]) + proj[1:]
+                continue
+            if "use" in rv and op_place(rv["use"]) is not None:
+                q = op_place(rv["use"])
+                l, proj = q["l"], list(q["p"]) + proj
+                continue
+            return None
+        break
+    if not proj or not (isinstance(proj[0], dict) and "f" in proj[0]):
+        # a whole-value copy of the record first
+        ds = [d for d in body.defs.get(l, []) if d[0] in ("stmt", "call")]
+        return None
+    ds = [d for d in body.defs.get(l, []) if d[0] in ("stmt", "call")]
+    if len({repr(d[3]) for d in ds if d[0] == "stmt"}) != 1 or any(d[0] == "call" for d in ds):
+        return None
+    rv = ds[0][3]
+    if "use" in rv and op_place(rv["use"]) is not None and not op_place(rv["use"])["p"]:
+        return _through_local_record(body, {"l": op_place(rv["use"])["l"], "p": proj}, depth + 1, env)
+    ag = rv.get("agg")
+    if not ag or ag.get("kind") != "adt" or not lib.is_crate_adt(ag.get("adt", "")) or proj[0]["f"] >= len(ag["ops"]):
+        return None
+    q = op_place(ag["ops"][proj[0]["f"]])
+    if q is None:
+        return None
+    return _place_source(body, {"l": q["l"], "p": list(q["p"]) + proj[1:]}, depth + 1, env)
 
 
 def _local_source(body, l, depth, env):
@@ -319,6 +377,11 @@ def _local_source(body, l, depth, env):
                 else:
                     res.add(None)
             elif t1 in SRC_PASS:
+                pp = op_place(t["args"][0])
+                res.add(_place_source(body, pp, depth + 1, env) if pp else None)
+            elif t2 == "Option::map" and len(t["args"]) == 2 and op_fn(t["args"][1]) is not None \
+                    and lib.tail(mir.fn_name(op_fn(t["args"][1])), 1) in ("as_slice", "as_ref", "deref", "borrow"):
+                # `table.get(&key).map(Vec::as_slice)`: a view of the looked-up list
                 pp = op_place(t["args"][0])
                 res.add(_place_source(body, pp, depth + 1, env) if pp else None)
             elif t2 == "Option::map" and len(t["args"]) == 2 and _projection_field(body, t["args"][1]) is not None:
